@@ -168,6 +168,31 @@ def par_local(long n, int nt):
             s += i + local - 7
     return s
 
+cdef long h1(long x) except? -1 nogil:
+    return x * 3 + 1
+
+cdef long h2(long x) except? -1 nogil:
+    sim_yield()
+    return x + 5
+
+cdef double h3(double x) except? -1.0 nogil:
+    sim_yield()
+    return x * 0.5
+
+def tmp_reuse(long n, int nt, int chunk, long[::1] out, double[::1] dout):
+    # The statements before the loop use and release C temporaries of the same types the loop body needs:
+    # the body's temporaries are recycled ones and must still be private to each thread.
+    cdef long i
+    cdef long pre = h1(n) + h2(n) * h1(n + 1)
+    cdef double dpre = h3(n) + h3(n + 1.0)
+    cdef long s = 0
+    for i in prange(n, nogil=True, num_threads=nt, schedule='dynamic', chunksize=chunk):
+        sim_rec(1, i)
+        out[i] = h1(i) + h2(i) * h1(i + 1)
+        dout[i] = h3(i) + h3(i + 1.0)
+        s += h2(i) - h1(i)
+    return (pre, dpre, s)
+
 def cond_threads(long n, int nt, bint use):
     cdef long i
     cdef long s = 0
@@ -229,7 +254,7 @@ def seq_range(a, b, step):
 
 def gen_case(rng):
     sched = rng.choice(SCHEDS)
-    kind = rng.choice(["red", "red", "redi", "fill", "brk", "ret", "raise", "raise", "rb", "rb", "par_two", "par_local", "cond"])
+    kind = rng.choice(["red", "red", "redi", "fill", "brk", "ret", "raise", "raise", "rb", "rb", "par_two", "par_local", "cond", "tmp", "tmp"])
     nt = rng.choice([1, 2, 2, 3, 3, 4, 5, 8])
     chunk = rng.choice([1, 1, 2, 3, 5, 16])
     policy = rng.choice([0, 0, 0, 1, 2])
@@ -283,6 +308,11 @@ def run_case(mod, lib, boom, case):
             out = mod.par_two(case["n"], case["m"], case["nt"], case["chunk"])
         elif k == "par_local":
             out = mod.par_local(case["n"], case["nt"])
+        elif k == "tmp":
+            arr = array.array("l", [0] * max(1, case["n"]))
+            darr = array.array("d", [0.0] * max(1, case["n"]))
+            out = mod.tmp_reuse(case["n"], case["nt"], case["chunk"], arr, darr)
+            out = (out, list(arr)[:case["n"]], list(darr)[:case["n"]])
         else:
             out = mod.cond_threads(case["n"], case["nt"], case["use"])
     except BaseException as e:
@@ -341,6 +371,18 @@ def run_case(mod, lib, boom, case):
             v = bad("iterations-not-exactly-once", {"expected": exp, "got": sorted(started)})
         elif exc is not None or list(arr) != [x * 3 + 1 for x in exp]:
             v = bad("result-differs-from-sequential", {"array": list(arr), "exc": exc})
+    elif k == "tmp":
+        n = case["n"]
+        exp = list(range(n))
+        H1 = lambda x: x * 3 + 1
+        H2 = lambda x: x + 5
+        H3 = lambda x: x * 0.5
+        want = ((H1(n) + H2(n) * H1(n + 1), H3(n) + H3(n + 1.0), sum(H2(x) - H1(x) for x in exp)),
+                [H1(x) + H2(x) * H1(x + 1) for x in exp], [H3(x) + H3(x + 1.0) for x in exp])
+        if sorted(started) != exp:
+            v = bad("iterations-not-exactly-once", {"expected": exp, "got": sorted(started)})
+        elif exc is not None or [list(out[0]), out[1], out[2]] != [list(want[0]), want[1], want[2]]:
+            v = bad("result-differs-from-sequential", {"want": want, "got": out, "exc": exc})
     elif k in ("par_two", "par_local", "cond"):
         exp = list(range(case["n"]))
         if sorted(started) != exp:
